@@ -245,6 +245,17 @@ def body_large(ctx, conv):
         # whole-degree coordinates stored in integer types, odd spacings (cell edges are half-way values)
         nj, ni = 3, 4
         ds = builders.cf1d(nj, ni, lat=numpy.array([-2, -1, 2], dtype='int32'), lon=numpy.array([150, 151, 154, 155], dtype='int64'))
+    elif conv == 'cf1d-huge':
+        # more than 2**16 cells
+        nj, ni = 260, 257
+        ds = builders.cf1d(nj, ni, lat=numpy.linspace(-44.0, -10.0, nj), lon=numpy.linspace(110.0, 158.0, ni))
+    elif conv == 'cf2d-20k':
+        nj, ni = 130, 154
+        jj, ii = numpy.meshgrid(numpy.arange(nj, dtype=float), numpy.arange(ni, dtype=float), indexing='ij')
+        ds = builders.cf2d(nj, ni, lat=-40.0 + 0.1 * jj + 0.01 * ii, lon=140.0 + 0.1 * ii - 0.01 * jj)
+    elif conv.startswith('mesh-'):
+        # faces with up to twelve nodes
+        ds = builders.ugrid(conv[5:])
     else:
         ds = builders.cf1d(nj, ni)
     cv = ds.ems
@@ -365,6 +376,8 @@ def cases(tier):
     yield Case('large:cf2d-holes:3x4', body_large, dict(conv='cf2d-holes'), patches=_large_patches(), max_paths=5)
     yield Case('large:cf1d-0-360:3x6', body_large, dict(conv='cf1d-0-360'), patches=_large_patches(), max_paths=5)
     yield Case('large:cf1d-int:3x4', body_large, dict(conv='cf1d-int'), patches=_large_patches(), max_paths=5)
+    for conv in ('mesh-nonagon', 'mesh-fan9', 'mesh-poly34567', 'cf1d-huge', 'cf2d-20k'):
+        yield Case(f'large:{conv}', body_large, dict(conv=conv), patches=_large_patches(), max_paths=5)
     for conv in ('shoc_standard', 'cf1d'):
         yield Case(f'large:{conv}:101x11', body_large, dict(conv=conv), patches=_large_patches(), max_paths=5)
     for mesh in (['tqp'] if q else ['tqp', 'fan', 'tq']):
